@@ -13,6 +13,7 @@ class VerifError(Exception):
 
 
 ELEMENT = "filippo.io/edwards25519/field.Element"
+SCALAR = "filippo.io/edwards25519.Scalar"
 
 
 class Ptr:
@@ -426,9 +427,16 @@ class FuncRun:
         elif self.mode == "bv":
             self.dom = BvDomain(int(contract.opts.get("specw", 520)))
         elif self.mode == "ring":
-            from .ring import RingDomain
+            from .ring import RingDomain, set_mod, P25519
             self.dom = RingDomain()
-            self.prog = V.prog.view({ELEMENT})
+            modname = contract.opts.get("mod")
+            self.ringmod = P25519
+            if modname:
+                from .ceval import const_value
+                self.ringmod = const_value(V.contracts, modname)
+            set_mod(self.ringmod)
+            opq = contract.opts.get("opaque")
+            self.prog = V.prog.view({SCALAR} if opq == "Scalar" else {ELEMENT})
         elif self.mode == "group":
             from .group import GroupDomain, GROUP_OPAQUE
             self.dom = GroupDomain()
@@ -874,6 +882,8 @@ class FuncRun:
                 want = {"F:": ("ring",), "G:": ("group",), "L:": ("lia", "bv", "ring", "group"), "X:": ("lia", "bv", "ring")}[tier]
                 if self.mode not in want:
                     continue
+                if tier in ("F:", "X:", "L:") and self.mode == "ring" and getattr(self, "ringmod", None) not in (None, 2 ** 255 - 19):
+                    continue   # invariants about field elements: not in the vocabulary of the Z/l ring
             st.assume(ev.bool(ast))
         ev.pkg = self.f.get("pkg", "")
         # entry case splits (bounded parameters such as slice lengths) come first: the precondition may
